@@ -167,7 +167,7 @@ func (e *Engine) load(patterns []string, dir string) error {
 	for _, p := range prog.AllPackages() {
 		for _, m := range p.Members {
 			if t, ok := m.(*ssa.Type); ok {
-				q := p.Pkg.Name() + "." + t.Name()
+				q := pkgAlias(p.Pkg) + "." + t.Name()
 				e.typeNames[q] = t.Type()
 				e.typeNames["*"+q] = types.NewPointer(t.Type())
 			}
@@ -293,6 +293,7 @@ func (e *Engine) verifyFunction(fn *ssa.Function, fc *FuncContract) (res *FuncRe
 	// cover: preconditions satisfiable
 	o := &Obligation{Func: fc.Key, Name: "cover:requires", Kind: "cover", Hyps: append([]string(nil), st.pc...), Goal: "false", Expect: "sat", Src: "preconditions are satisfiable"}
 	fv.obls = append(fv.obls, o)
+	fv.computeFrame(st, env)
 	entry := st.clone()
 	fr.entry = entry
 	st.fr.entry = entry
@@ -358,9 +359,6 @@ func buildSMT(prelude, decls string, o *Obligation) string {
 		b.WriteString("(assert " + h + ")\n")
 	}
 	b.WriteString("(assert (not " + o.Goal + "))\n(check-sat)\n")
-	if o.Expect == "unsat" {
-		b.WriteString("(get-model)\n")
-	}
 	return b.String()
 }
 
